@@ -148,6 +148,9 @@ DOC_LEAVES = [
     "<!-- a comment <b> -->", "<?php echo 1 ?>", '<a href="?a=1&amp;b=2" title=\'single "q"\'>link</a>', "<p>unclosed para", "<li>item one<li>item two", "<B CLASS=\"Up\">upper</B>",
     "<script>if (a<b && c) { x(\"</\" + \"p>\"); }</script>", "<style>p > a { color: red; content: '&'; }</style>", "<textarea>t &lt; u</textarea>", "<em></em>", "&nbsp;&copy;&eacute;",
     '<td nowrap>c</td>', "<hr>", "<option selected>o</option>",
+    # markup characters spelled as numeric references (decimal, hexadecimal, mixed case), in text and in attribute values; references to references
+    "&#60;b&#62;not bold&#60;/b&#62;", "&#x3c;i&#x3E;x &#38;lt; y &#38;amp; z", '<a title="&#34;&#60;&#62;&#38;&#39;" href="?x=&#38;y">t &#34;&#39;</a>', "&amp;#60; &amp;lt; &amp;amp;", "&lt;!-- not a comment --&gt; &#60;!-- nor this --&#62;",
+    "&#60;script&#62;alert(1)&#60;/script&#62;", "1 &#60; 2 &#38;&#38; 3 &#62; 2",
 ]
 DOC_WRAPS = ["%s", "<div>%s</div>", '<div class="c" id="i">%s</div>', "<ul><li>%s</li></ul>", '<p lang="en">before %s after</p>', "<table><tr><td>%s</td></tr></table>"]
 
@@ -236,8 +239,23 @@ def check_inline(template):
     return None
 
 
+def _iter_globals():
+    """Things to repeat over that are not lists: fresh one-shot iterators and generators (no len())."""
+    return {"it0": iter(()), "gen0": (x for x in ()), "gen2": (x for x in ("g1", "g2")), "it1": iter(["one"]), "once": c17.OneShot(), "emptystr": "", "zeroes": [0, "", None]}
+
+
+ITERS = ["it0", "gen0", "gen2", "it1", "once", "emptystr", "zeroes", "seq0", "nothing", "missing | gen0"]
+ITER_TEMPLATES = (
+    ['<ul><li tal:repeat="x %s" tal:content="x">i</li></ul><b tal:content="x | callerlocal">after</b>' % a for a in ITERS]
+    + ['<ul><li tal:repeat="x %s" tal:define="v x" tal:omit-tag="">[<i tal:content="v">i</i>]</li></ul><b tal:content="v | x | callerlocal">after</b>' % a for a in ITERS]
+    + ['<div tal:repeat="o %s"><p tal:repeat="x %s" tal:content="string:$o/$x">p</p></div><b tal:content="x | o | callerlocal">after</b>' % (a, b) for a in ("seq2", "gen2", "it0") for b in ITERS]
+    + ['<div tal:repeat="callerlocal %s">shadow</div><b tal:content="callerlocal">after</b>' % a for a in ITERS]
+)
+
+
 def check_restore(template):
     globs = c17.make_globals()
+    globs.update(_iter_globals())
     t = simpleTAL.compileHTMLTemplate(template)
     ctx = simpleTALES.Context()
     for k, v in globs.items():
@@ -252,6 +270,8 @@ def check_restore(template):
     except Exception as e:  # noqa
         return ("exception", "%s: %s" % (type(e).__name__, e))
     after = snapshot(ctx)
+    if template in ITER_TEMPLATES and not out.getvalue().rstrip().endswith("mine</b>"):
+        return ("local-leaked", "after a repeat the caller's own variable is shadowed: %r ends %r" % (template, out.getvalue()[-60:]))
     # explicit global defines are allowed to stay
     import re
 
@@ -381,6 +401,7 @@ def run(ck):
     ctx_t = list(dict.fromkeys(c17.single_templates(ck.tier) + c17.nested_templates(ck.tier) + c17.metal_templates()))
     if ck.tier == "quick":
         ctx_t = ctx_t[::3] + c17.nested_templates(ck.tier) + c17.metal_templates()
+    ctx_t = ctx_t + ITER_TEMPLATES
     gates = [h for n in (1, 2, 3) for h in itertools.product(GATE_SETTINGS[:3] if n == 3 else GATE_SETTINGS, repeat=n)]
     shards = [("inline", INLINE_TEMPLATES)] + [("gate", ch) for ch in core.chunks(gates, 8)] + [("esc", ch) for ch in core.chunks(esc, core.NPROC)] + [("py", list(range(len(PY_POSITIONS))))] + [("doc", ch) for ch in core.chunks(dl, core.NPROC)] + [("ctx", ch) for ch in core.chunks(ctx_t, core.NPROC * 2)]
     p = ck.pmap(_shard, shards)
